@@ -326,6 +326,29 @@ async def main(args):
                 held.append(await open_conn("127.0.0.1", rng.choice([P["http"], P["socks"], P["https"]])))
             except Exception:
                 pass
+        # clients stalled inside an over-long, unterminated line or string of their handshake (request line, header line, SOCKS4
+        # user id, SOCKS4a host name; lengths around 4 K / 8 K / 16 K / 64 K and beyond): more of them than the proxy has worker
+        # threads, so that a parser which keeps a worker busy on such a client - instead of waiting for bytes - shows
+        import os as _os
+        long_n = 0
+        lens = [4095, 4096, 4097, 8191, 8192, 8193, 8200, 9000, 16384, 16385, 65535, 65536, 65537, 200000]
+        shapes = [("http", lambda L: b"CONNECT " + b"a" * L), ("http", lambda L: b"CONNECT 127.0.0.1:9 HTTP/1.1\r\nX-Pad: " + b"b" * L),
+                  ("http", lambda L: b"CONNECT 127.0.0.1:9 HTTP/1.1\r\n" + b"c" * L),
+                  ("socks", lambda L: b"\x04\x01\x00\x09\x7f\x00\x00\x01" + b"u" * L), ("socks", lambda L: b"\x04\x01\x00\x09\x00\x00\x00\x01u\x00" + b"h" * L)]
+        want = max(36, 2 * (_os.cpu_count() or 8) + 4) * (2 if args.thorough else 1)
+        for i in range(want):
+            lname, mk = shapes[i % len(shapes)]
+            L = lens[(i // len(shapes) + i) % len(lens)] if i >= len(lens) else lens[i]
+            try:
+                c = await open_conn("127.0.0.1", P["http"] if lname == "http" else P["socks"])
+                c.write(mk(L))
+                await asyncio.wait_for(c.drain(), 3)
+                held.append(c)
+                long_n += 1
+                stall_points += 1
+            except Exception:
+                pass
+        out.setx("stalled_inside_overlong_lines", long_n)
         await asyncio.sleep(0.3)
         out.setx("stall_points", stall_points)
         out.setx("stalled_connections", len(held))
